@@ -128,7 +128,8 @@ PinnedOps == {"Poll", "Scan", "Stage", "Supply", "Transition", "Open"}
 \* ---------------------------------------------------------------- monitor state
 NoRoots == [set |-> FALSE, alpha |-> Nil, beta |-> Nil]
 RootsOf(a, b) == [set |-> TRUE, alpha |-> a, beta |-> b]
-NoCycle == [ph |-> "none", called |-> {}, got |-> {}, ok |-> TRUE, anc |-> Nil, a |-> Nil, b |-> Nil,
+NoTree == [set |-> FALSE, tree |-> Nil]
+NoCycle == [ph |-> "none", called |-> {}, got |-> {}, ok |-> TRUE, anc |-> Nil, a |-> Nil, b |-> Nil, clean |-> FALSE,
             pend |-> 0, trans |-> {}]
 
 MInit(mode) == [
@@ -155,6 +156,12 @@ MInit(mode) == [
   lastRoots |-> NoRoots, \* most recent Roots observation not invalidated by an Edit or a Transition
   resetRef |-> NoRoots,  \* roots as walked when a reset was called
   resetClean |-> FALSE,  \* a reset returned ok and no scan has returned since: the archive must be empty
+  \* C11 against the disks themselves: the last state BOTH roots were seen in (by the walker) right after the session
+  \* itself had brought them there - a cycle that started after the last external edit finished its transitions, or
+  \* completed - so that an unchanged controller has recorded exactly that state as its ancestor
+  agreed |-> NoTree,
+  synced |-> FALSE,      \* such a cycle has finished since the last external edit / transition
+  haltVia |-> "none",    \* "anc": the halt was due by the ancestor handed to Scan; "agreed": only by the agreed state
   pin |-> {},            \* endpoint operations called and not yet returned, as <<side, op>> (the loop is inside them)
   mc |-> 0,              \* complete cycles since the endpoints were last connected (SuccessfulCycles)
   rerr |-> FALSE,        \* the last scan of this connection asked to be tried again (LastError is set)
@@ -189,7 +196,8 @@ MCall(m, i, k) ==
             ELSE m1
   IN CASE k = "resume" -> [m2 EXCEPT !.quiet = m.term, !.pz = "unk"]
        [] k = "restart" -> [m2 EXCEPT !.quiet = m.term \/ (@ /\ m.pz = "yes")]
-       [] k = "reset" -> [m2 EXCEPT !.resetRef = m.lastRoots, !.resetClean = FALSE,
+       [] k = "reset" -> [m2 EXCEPT !.agreed = NoTree, !.synced = FALSE,        \* the history is being cleared
+                                    !.resetRef = m.lastRoots, !.resetClean = FALSE,
                                     !.resetDirty = IF InflKinds(m, {"reset"}) = {} THEN FALSE ELSE @]
        [] k \in {"flushw", "flushn"} ->
             [m2 EXCEPT !.fresh = @ \ {i}, !.fdone = @ \ {i},
@@ -229,7 +237,7 @@ MOp(m, o) ==
       newCycle == o.op = "Scan" /\ isCall /\ (c.ph # "scanning" \/ o.side \in c.called)
       c2 == CASE o.op \in {"Connect", "Shutdown"} -> NoCycle     \* synchronize() is over / starts afresh
               [] newCycle ->
-                   [NoCycle EXCEPT !.ph = "scanning", !.called = {o.side}, !.anc = o.anc, !.pend = 1]
+                   [NoCycle EXCEPT !.ph = "scanning", !.called = {o.side}, !.anc = o.anc, !.pend = 1, !.clean = TRUE]
               [] o.op = "Scan" /\ isCall ->
                    [c EXCEPT !.called = @ \cup {o.side}, !.pend = @ + 1]
               [] o.op = "Scan" /\ ~isCall /\ c.ph = "scanning" /\ o.side \in (c.called \ c.got) ->
@@ -246,10 +254,13 @@ MOp(m, o) ==
               [] o.op = "Poll" /\ isCall /\ CycleComplete(c, m.mode) -> [c EXCEPT !.ph = "done"]   \* counted once
               [] OTHER -> c
       endsOld == (newCycle \/ (o.op = "Poll" /\ isCall)) /\ CycleComplete(c, m.mode)
-      estab == /\ c.ph = "scanning" /\ c2.ph = "scanned" /\ ~m.halted
-               /\ MustHalt(m.mode, c2.anc, c2.a, c2.b)
-               /\ InflKinds(m, HaltEndKinds) = {}
+      scanned == c.ph = "scanning" /\ c2.ph = "scanned"
+      mustA == scanned /\ MustHalt(m.mode, c2.anc, c2.a, c2.b)
+      mustG == scanned /\ m.agreed.set /\ MustHalt(m.mode, m.agreed.tree, c2.a, c2.b)
+      estab == (mustA \/ mustG) /\ ~m.halted /\ InflKinds(m, HaltEndKinds) = {}
       transRet == o.op = "Transition" /\ ~isCall
+      \* all transitions of a cycle that began after the last external edit are back, successfully
+      txDone == transRet /\ c2.ph = "applying" /\ c2.ok /\ c2.pend = 0 /\ c2.trans # {} /\ c2.clean
   IN [m EXCEPT !.cy = c2,
                !.fdone = IF endsOld THEN @ \cup m.fresh ELSE @,
                !.fresh = IF newCycle THEN Waiting(m) ELSE @,
@@ -259,6 +270,14 @@ MOp(m, o) ==
                !.halted = @ \/ estab,
                !.haltTouched = IF estab THEN InflKinds(m, {"pause", "terminate"}) # {} ELSE @,
                !.haltRoots = IF estab THEN m.lastRoots ELSE @,
+               !.haltVia = IF estab THEN (IF mustA THEN "anc" ELSE "agreed") ELSE @,
+               \* the agreed state is forgotten as soon as the session may have moved its ancestor away from it: a
+               \* transition returned, or a cycle scanned something else and was not obliged to halt
+               !.agreed = IF transRet THEN NoTree
+                          ELSE IF scanned /\ ~(mustA \/ mustG) /\ m.agreed.set
+                                  /\ ~(c2.a = m.agreed.tree /\ c2.b = m.agreed.tree) THEN NoTree
+                          ELSE @,
+               !.synced = IF transRet THEN txDone ELSE IF endsOld THEN c.clean ELSE @,
                !.lastRoots = IF transRet THEN NoRoots ELSE @,
                !.resetRef = IF transRet /\ InflKinds(m, {"reset"}) # {} THEN NoRoots ELSE @,
                !.resetClean = @ /\ ~(o.op = "Scan" /\ ~isCall),
@@ -288,8 +307,11 @@ MOp(m, o) ==
 RECURSIVE MOps(_, _)
 MOps(m, q) == IF q = <<>> THEN m ELSE MOps(MOp(m, Head(q)), Tail(q))
 
-MEdit(m) == [m EXCEPT !.lastRoots = NoRoots, !.resetRef = NoRoots, !.haltRoots = NoRoots]
-MRoots(m, r) == [m EXCEPT !.lastRoots = r, !.haltRoots = IF m.halted /\ ~@.set THEN r ELSE @]
+MEdit(m) == [m EXCEPT !.lastRoots = NoRoots, !.resetRef = NoRoots, !.haltRoots = NoRoots, !.synced = FALSE, !.cy.clean = FALSE]
+MRoots(m, r) == [m EXCEPT !.lastRoots = r, !.haltRoots = IF m.halted /\ ~@.set THEN r ELSE @,
+                          !.agreed = IF m.synced /\ r.alpha = r.beta THEN [set |-> TRUE, tree |-> r.alpha] ELSE @]
+\* the sessions / archives directory became unavailable: the ancestor may not have been saved
+MBreak(m) == [m EXCEPT !.agreed = NoTree, !.synced = FALSE]
 
 \* ---------------------------------------------------------------- properties
 \* (observation records: st = [listed, paused, status], dk = [sessionFile, paused, archive], r = RootsOf(..);
@@ -318,6 +340,7 @@ ExpectedStatus(m) ==
 StatusAgrees(m, st) == Pinned(m) => Abs(st.status, st.lastError # "", st.cycles) = ExpectedStatus(m)
 
 C11_NoOpsWhileHalted(m) == ~m.haltBad
+ViaAgreed(m) == m.halted /\ m.haltVia = "agreed"
 C11_Status(m, st) == (m.halted /\ m.haltSettled /\ ~m.haltTouched /\ ~m.term) => st.status \in HaltedStatuses
 C11_Roots(m, r) == (m.halted /\ m.haltRoots.set) => (r.alpha = m.haltRoots.alpha /\ r.beta = m.haltRoots.beta)
 ====
